@@ -1,4 +1,135 @@
-import QlibcModel.Tree.Table
+/-
+  C03 — with the table unmodified during the walk, calling `qtreetbl_getnext` repeatedly from a
+  zero-initialised cursor returns every stored key exactly once, in strictly ascending order,
+  each with its current value, and then reports the end — after any prior history.
+
+  Thin wrappers around `QlibcModel/Tree/{Walk,Epoch,History}.lean`.  Vocabulary:
+  `walkFrom n s cur` calls `Tbl.getnext` until it reports the end (at most `n` calls) and returns
+  the key/value pairs and the final table; `kvs t` is the in-order key/value sequence of a tree;
+  `EpochInv` is the invariant "no node stamp exceeds the table's 8-bit epoch (≥ 1), node
+  identifiers are unique and below the allocation counter"; `Quiescent` = no node carries the
+  current epoch; `Upd Skel t t'` = same shape and colours, same key, value and identifier in
+  every node (stamps and parent pointers may differ); `run` executes a history of operations.
+-/
+import QlibcModel.Tree.WalkHistory
+
 namespace Qlibc.Props.C03
-theorem placeholder : True := trivial
+open Qlibc Qlibc.Tree T
+
+variable {K V : Type}
+
+/-- The core lemma.  The cursor stands on the root `a` of a subtree none of whose nodes carries
+    the walk's stamp, `a.next` and the `next` pointers of its ancestors lead to the root (`PathOk`),
+    and the sibling subtrees along that path are each uniformly stamped or unstamped.  Then the
+    following `getnext` calls return the entries of the subtree in order, one per call, then what
+    the enclosing context still owes (`remF`; for a walk started at the root of the tree the
+    context is empty), then the end — without fault. -/
+theorem subtree_walk {s : Tbl K V} {cur : Cur} {fs : List (Frame K V)} {l a c r} (n : Nat)
+    (hroot : s.root = plug fs (.node l a c r)) (hcur : cur.next = some a.id)
+    (hun : AllUn cur.tid (.node l a c r)) (hfo : FramesOk cur.tid fs) (hp : PathOk a.next fs)
+    (hd : DistinctIds s.root) :
+    ∃ s', walkFrom (size (.node l a c r) + (remF cur.tid fs).length + 1 + n) s cur
+      = .ok (kvs (.node l a c r) ++ remF cur.tid fs, s') :=
+  Tree.subtree_walk n hroot hcur hun hfo hp hd
+
+/-- Step form of the core lemma.  Exactly `size sub` calls return exactly the entries of the
+    subtree, in order; afterwards the tree is in a between-calls state (`Mid`: cursor on the node
+    just visited, its left subtree and itself stamped, parent pointers along the path in place)
+    that owes exactly what the context owed: every node of the subtree is stamped and the next
+    call leaves the subtree through `a.next`, i.e. continues at the parent. -/
+theorem subtree_walk_steps {s : Tbl K V} {cur : Cur} {fs : List (Frame K V)} {l a c r}
+    (hroot : s.root = plug fs (.node l a c r)) (hcur : cur.next = some a.id)
+    (hun : AllUn cur.tid (.node l a c r)) (hfo : FramesOk cur.tid fs) (hp : PathOk a.next fs)
+    (hd : DistinctIds s.root) :
+    ∃ s' c', walkK (size (.node l a c r)) s cur
+        = .ok (kvs (.node l a c r), s', { tid := cur.tid, next := some c' }) ∧
+      Mid cur.tid s'.root c' (remF cur.tid fs) ∧ s'.num = s.num ∧ s'.tid = s.tid ∧ s'.fresh = s.fresh :=
+  Tree.subtree_walk_steps hroot hcur hun hfo hp hd
+
+/-- A complete walk under the invariant: exactly the in-order key/value sequence, then the end;
+    `size + 2` calls suffice (and the per-call fuel `3 * size + 3` of the model is never
+    exhausted, no dangling pointer is followed); afterwards the invariant holds again and shape,
+    colours, keys, values and identifiers are unchanged. -/
+theorem walk_complete {s : Tbl K V} (h : EpochInv s) (n : Nat) :
+    ∃ s', walkFrom (s.root.size + 2 + n) s {} = .ok (kvs s.root, s') ∧
+      EpochInv s' ∧ Quiescent s' ∧ Upd Skel s.root s'.root ∧ s'.num = s.num ∧ s'.fresh = s.fresh :=
+  Tree.walk_complete h n
+
+/-- … and on a search tree that sequence is strictly ascending by key: every key exactly once. -/
+theorem walk_ascending {cmp : K → K → Ordering} {s : Tbl K V} (h : EpochInv s)
+    (ho : Ordered cmp keyOf s.root) (n : Nat) :
+    ∃ xs s', walkFrom (s.root.size + 2 + n) s {} = .ok (xs, s') ∧ xs = kvs s.root ∧
+      xs.Pairwise (fun a b => cmp a.1 b.1 = .lt) := by
+  obtain ⟨s', hw, _⟩ := Tree.walk_complete h n
+  exact ⟨_, s', hw, rfl, kvs_sorted ho⟩
+
+/-- The invariant holds for `qtreetbl()`. -/
+theorem epoch_inv_init : EpochInv (Tbl.init : Tbl K V) := epochInv_init
+
+/-- `reset_iterator` keeps the invariant, including the wrap-around of the 8-bit epoch (all
+    stamps are cleared and the epoch restarts at 1), and leaves no node with the new epoch. -/
+theorem epoch_inv_reset {s : Tbl K V} (h : EpochInv s) :
+    EpochInv (resetIterator s) ∧ Quiescent (resetIterator s) :=
+  ⟨reset_epoch h, reset_quiescent h⟩
+
+/-- One `getnext` call from the zero cursor or from any cursor whose stamp does not exceed the
+    epoch (every cursor handed out by `getnext` or `find_nearest` since the last wrap-around)
+    keeps the invariant and changes only stamps and parent pointers. -/
+theorem epoch_inv_getnext {s : Tbl K V} (h : EpochInv s) {cur : Cur} (hc : cur.next = none ∨ cur.tid ≤ s.tid)
+    {s' : Tbl K V} {out : WalkOut K V} (hg : s.getnext cur = .ok (s', out)) :
+    EpochInv s' ∧ Upd Skel s.root s'.root ∧ s'.num = s.num ∧ s'.fresh = s.fresh ∧
+      (∀ k v c, out = .item k v c → c.tid ≤ s'.tid ∧ c.next ≠ none) ∧ (out = .done → Quiescent s') :=
+  getnext_epoch h hc hg
+
+/-- Generic form for tree transformations: whatever rearranges the nodes, overwrites keys and
+    values in place or drops nodes keeps the invariant … -/
+theorem epoch_inv_of_sublist {s : Tbl K V} (h : EpochInv s) {root' : T (Entry K V)} (num' : Nat)
+    (hsub : ((inorder root').map idt).Sublist ((inorder s.root).map idt)) :
+    EpochInv { s with root := root', num := num' } :=
+  h.of_sublist num' hsub
+
+/-- … and so does adding one node with the next free identifier and stamp 0 (calloc). -/
+theorem epoch_inv_of_insert {s : Tbl K V} (h : EpochInv s) {root' : T (Entry K V)} (num' : Nat)
+    {pre post : List (Nat × UInt8)} (hold : (inorder s.root).map idt = pre ++ post)
+    (hnew : (inorder root').map idt = pre ++ (s.fresh, 0) :: post) :
+    EpochInv { s with root := root', num := num', fresh := s.fresh + 1 } :=
+  h.of_insert num' hold hnew
+
+/-- Every operation of a history keeps the invariant: `putobj`, `removeobj`, `clear`, a complete
+    walk, a walk abandoned after `j` calls, `find_nearest` followed by `j` calls of `getnext`. -/
+theorem epoch_inv_step (cmp : K → K → Ordering) (isEmpty : V → Bool) {s s' : Tbl K V} (h : EpochInv s)
+    (op : WOp K V) (hr : runWOp cmp isEmpty s op = .ok s') : EpochInv s' :=
+  Tree.epoch_inv_step cmp isEmpty h op hr
+
+theorem epoch_inv_reachable (cmp : K → K → Ordering) (isEmpty : V → Bool) (ops : List (WOp K V))
+    {s : Tbl K V} (hr : runW cmp isEmpty Tbl.init ops = .ok s) : EpochInv s :=
+  Tree.epoch_inv_reachable cmp isEmpty ops _ s epochInv_init hr
+
+/-- Complete and abandoned walks inside a history never fault. -/
+theorem history_walks_ok (cmp : K → K → Ordering) (isEmpty : V → Bool) {s : Tbl K V} (h : EpochInv s) (j : Nat) :
+    (∃ s', runWOp cmp isEmpty s .walk = .ok s') ∧ (∃ s', runWOp cmp isEmpty s (.abandon j) = .ok s') :=
+  ⟨runWOp_walk_ok cmp isEmpty h, runWOp_abandon_ok cmp isEmpty h j⟩
+
+/-- The property: after any history (from the empty table) that the model executes, a walk
+    from a zero-initialised cursor returns exactly the in-order key/value sequence and then the
+    end, without fault. -/
+theorem traversal_any_history (cmp : K → K → Ordering) (isEmpty : V → Bool) (ops : List (WOp K V))
+    {s : Tbl K V} (hr : runW cmp isEmpty Tbl.init ops = .ok s) (n : Nat) :
+    ∃ s', walkFrom (s.root.size + 2 + n) s {} = .ok (kvs s.root, s') ∧
+      EpochInv s' ∧ Quiescent s' ∧ Upd Skel s.root s'.root ∧ s'.num = s.num ∧ s'.fresh = s.fresh :=
+  Tree.traversal_any_history cmp isEmpty ops hr n
+
+/-! non-vacuity: a concrete history and what the theorem says about it -/
+
+example : ∃ s s', runW compare (fun _ => false) (Tbl.init : Tbl Nat Nat)
+      [.put 2 20, .put 1 10, .put 3 30, .remove 2, .put 3 31, .clear, .put 9 90, .put 4 40] = .ok s ∧
+    walkFrom 4 s {} = .ok ([(4, 40), (9, 90)], s') := by
+  have h : runW compare (fun _ => false) (Tbl.init : Tbl Nat Nat)
+      [.put 2 20, .put 1 10, .put 3 30, .remove 2, .put 3 31, .clear, .put 9 90, .put 4 40] = .ok _ := rfl
+  obtain ⟨s', hw, _⟩ := traversal_any_history compare _ _ h 0
+  exact ⟨_, s', h, hw⟩
+
+example : ∃ s, runWOp compare (fun _ => false) (Tbl.init : Tbl Nat Nat) (.abandon 3) = .ok s :=
+  (history_walks_ok compare _ epoch_inv_init 3).2
+
 end Qlibc.Props.C03
